@@ -48,7 +48,17 @@ def gen(ctx):
 
 # ------------------------------------------------------------------ helpers
 def nlist(codes):
-    return "[" + ";".join(str(c) for c in codes) + "]%N"
+    """Coq expression of type list N (parsed inside Coq from a string literal: numeral lists are slow to elaborate)"""
+    return '(codes "%s")' % " ".join(str(c) for c in codes)
+
+
+def to_coq(t):
+    k = t[0]
+    if k == "var": return "(Var %d%%N)" % t[1]
+    if k == "int": return "(Int (%d)%%Z)" % t[1]
+    if k == "atom": return "(Atom %s)" % nlist([ord(c) for c in t[1]])
+    if k == "cmp": return "(Cmp %s [%s])" % (nlist([ord(c) for c in t[1]]), "; ".join(to_coq(x) for x in t[2]))
+    raise ValueError(t)
 
 
 def codes_of(t):
@@ -159,7 +169,7 @@ def gen_atoms(ctx):
     pools = [full, [ord(c) for c in "abcXYZ_019"], [ord(c) for c in "+-*/\\.:=<>#$&^~?@"], ALPH2,
              [ord(c) for c in "ab_1"] + [0xE9, 0xC9, 0x65E5, 0x672C, 0x3BB, 0x3A9, 0xDF, 0x2116, 0x1F600, 0xB2, 0x1C5, 0x2167, 0x200B],
              [ord(c) for c in "a'\\"] + [10, 9, 1, 0x85, 0xA0, 0x2028, 127, 11, 12, 8, 7, 13, 34, 96, 32]]
-    for _ in range(ctx.scale(1800, 40000)):
+    for _ in range(ctx.scale(1200, 40000)):
         pool = rng.choice(pools)
         n = rng.choice([3, 3, 4, 4, 5, 6, 8, 12])
         atoms.append(tuple(rng.choice(pool) for _ in range(n)))
@@ -240,13 +250,13 @@ def run_atoms(ctx, res):
                 back = codes_of(r[2][3])
                 wq = [ord(ch) for ch in lines[i + k]] if lines is not None else w1
                 if back is None:
-                    back_c = "[0;0;0]%N" if tuple(a) != (0, 0, 0) else "[1]%N"   # anything different from the atom
+                    back_c = nlist([0, 0, 0]) if tuple(a) != (0, 0, 0) else nlist([1])   # anything different from the atom
                     back_txt = terms.to_prolog(r[2][3])
                 else:
                     back_c, back_txt = nlist(back), "the atom with text %r (codes %s)" % (text(back), pl_codes(back))
                 bools.append("check_atom %s %s %s %s %s %s" % (nlist(a), nlist(wq), nlist(w1), nlist(w2), nlist(w3), back_c))
                 meta.append((a, wq, w1, w2, w3, back_txt))
-    bad, errs = core.coq_eval_bools(ctx.prop, IMPORTS, bools, chunk=500, tag="atomcases")
+    bad, errs = yield bools
     for _, t in errs:
         res["tie_breaks"].append({"kind": "coq-eval", "what": "atom shard failed", "detail": t})
     if bad:
@@ -284,6 +294,7 @@ def run_classes(ctx, res):
     items = terms.list_view(bs)[0] if bs is not None else None
     if items is None or len(items) != len(alph):
         res["tie_breaks"].append({"kind": "harness", "what": "char_type sweep gave no result", "detail": rec_problem(out.get("cls"), 0)})
+        yield []
         return
     bools = []
     obs = []
@@ -291,7 +302,7 @@ def run_classes(ctx, res):
         v = codes_of(b)
         obs.append(v)
         bools.append("check_class %d%%N [%s]" % (c, "; ".join("true" if x else "false" for x in v)))
-    bad, errs = core.coq_eval_bools(ctx.prop, IMPORTS, bools, chunk=500, tag="classcases")
+    bad, errs = yield bools
     for _, t in errs:
         res["tie_breaks"].append({"kind": "coq-eval", "what": "class shard failed", "detail": t})
     for i in bad[:10]:
@@ -326,7 +337,7 @@ def run_wchars(ctx, res):
             w1, w2 = codes_of(r[2][0]), codes_of(r[2][1])
             bools.append("check_write_chars %s %s %s" % (nlist(c), nlist(w1), nlist(w2)))
             meta.append((c, w1, w2))
-    bad, errs = core.coq_eval_bools(ctx.prop, IMPORTS, bools, chunk=500, tag="wcharcases")
+    bad, errs = yield bools
     for _, t in errs:
         res["tie_breaks"].append({"kind": "coq-eval", "what": "write-chars shard failed", "detail": t})
     seen = set()
@@ -420,7 +431,7 @@ def run_canonical(ctx, res):
     rng = ctx.rng
     atoms = PLAIN + TRICKY
     funcs = [(a, None) for a in PLAIN + ["-", "+", ",", "|", "[]", "{}", ".", "$VAR", ":-", "\\+", "=", "é", "a b", "", "A", "*", "1"]]
-    n = ctx.scale(1500, 30000)
+    n = ctx.scale(1000, 30000)
     cases, seen = [], set()
     fixed = ["f(+)", "f(:-)", "[-]", "- (1)", "-(-(1))", "1 - (-1)", "'$VAR'(1)", "'$VAR'(-1)", "{a,b}", "(a,b)", "[a|b]", "\"abc\"", "- 1", "-(1)",
              "-(a)", "1-2", "a:b:c", "\\+a", "f(',', '|', '[]', '{}')", "'[]'(x)", "'{}'(x)", "f((a:-b))", "- - a", "[a,b|c]", "f(- 1)", "f(-(1))",
@@ -488,7 +499,7 @@ def run_canonical(ctx, res):
                                           "detail": {"query": terms.to_prolog(t), "result": rec_problem(rec, i)}})
                 if is_ground: gi += 1
                 continue
-            ct = terms.to_coq(t)
+            ct = to_coq(t)
             e = "check_canonical %s %s" % (ct, nlist(wc))
             fl = None
             if is_ground:
@@ -498,13 +509,13 @@ def run_canonical(ctx, res):
                 gi += 1
             bools.append(e)
             meta.append((t, wc, fl))
-    bad, errs = core.coq_eval_bools(ctx.prop, IMPORTS, bools, chunk=400, tag="canoncases")
+    bad, errs = yield bools
     for _, t in errs:
         res["tie_breaks"].append({"kind": "coq-eval", "what": "canonical shard failed", "detail": t})
     if bad:
         ops = default_ops()
         shown = sorted(bad, key=lambda i: terms.size(meta[i][0]))[:8]
-        specs = core.coq_eval_show(ctx.prop, IMPORTS, "[%s]" % "; ".join("write_canonical_ref %s" % terms.to_coq(meta[i][0]) for i in shown))
+        specs = core.coq_eval_show(ctx.prop, IMPORTS, "[%s]" % "; ".join("write_canonical_ref %s" % to_coq(meta[i][0]) for i in shown))
         seen_k = set()
         for i in shown:
             t, wc, fl = meta[i]
@@ -543,65 +554,176 @@ SPACING_FIXED = ["- - a", "a- -1", "1 - 2", "\\+a", "a:b:c", "- (1)", "-(-(1))",
 # ---- round-trip engine (also used by checks/C15.py) ---------------------------------------------------------------
 RT_PROG = PRELUDE + r"""
 c55_cs(Cs, Codes) :- maplist(char_code, Cs, Codes).
-c55_variant(A, B) :- A == B, !.
-c55_variant(A, B) :- term_variables(A, VA), term_variables(B, VB), length(VA, N), length(VB, N), \+ \+ ( VA = VB, A == B ).
-c55_rt(T, Opts, R) :-
-    catch(write_term_to_chars(T, Opts, C1), E0, C1 = write_error(E0)),
+% -0.0 may be written as 0.0 (the property allows it): compare modulo the sign of zero
+c55_norm(T, T) :- var(T), !.
+c55_norm(T, N) :- float(T), !, ( T =:= 0.0 -> N = 0.0 ; N = T ).
+c55_norm(T, T) :- atomic(T), !.
+c55_norm(T, N) :- T =.. [F|As], c55_norms(As, Ns), N =.. [F|Ns].
+c55_norms([], []).
+c55_norms([A|As], [N|Ns]) :- c55_norm(A, N), c55_norms(As, Ns).
+c55_variant(A0, B0) :- c55_norm(A0, A), c55_norm(B0, B), ( A == B -> true ; c55_variant_(A, B) ).
+c55_variant_(A, B) :- term_variables(A, VA), term_variables(B, VB), length(VA, N), length(VB, N), \+ \+ ( VA = VB, A == B ).
+% numbervars(true): the letters written for '$VAR'(N) come back as variables; name them back
+c55_bind([]).
+c55_bind([Name=V|Vs]) :- atom_chars(Name, [C|Ds]), ( C == '_' -> true ; char_code(C, CC), I is CC - 65,
+      ( Ds == [] -> J = 0 ; number_chars(J, Ds) ), N is J*26 + I, V = '$VAR'(N) ), c55_bind(Vs).
+c55_read(Cs, nv, T2) :- !, read_term_from_chars(Cs, T2, [variable_names(Vs)]), c55_bind(Vs).
+c55_read(Cs, _, T2) :- read_term_from_chars(Cs, T2, []).
+c55_rt(T, Opts, Names, Mode, R) :-
+    catch(write_term_to_chars(T, [variable_names(Names)|Opts], C1), E0, C1 = write_error(E0)),
     (  C1 = write_error(_) -> R = bad([], [119,114,105,116,101,32,101,114,114,111,114])
     ;  append(C1, " .", C2),
-       catch(( read_term_from_chars(C2, T2, []) -> true ; T2 = '$read_failed' ), E, T2 = '$syntax_error'(E)),
+       catch(( c55_read(C2, Mode, T2) -> true ; T2 = '$read_failed' ), E, T2 = '$syntax_error'(E)),
        (  c55_variant(T, T2) -> R = ok
        ;  c55_cs(C1, W), catch(write_term_to_chars(T2, [quoted(true), ignore_ops(true)], C3), _, C3 = "?"), c55_cs(C3, W3), R = bad(W, W3) ) ).
-c55_rts([], _, []).
-c55_rts([T|Ts], O, [R|Rs]) :- c55_rt(T, O, R), c55_rts(Ts, O, Rs).
+c55_rts([], _, _, _, []).
+c55_rts([T|Ts], O, Ns, M, [R|Rs]) :- c55_rt(T, O, Ns, M, R), c55_rts(Ts, O, Ns, M, Rs).
+% the stream predicates themselves: write all terms to a file, read them back
+c55_wfile(File, Ts, How) :- open(File, write, S), c55_wf(Ts, How, S), close(S).
+c55_wf([], _, _).
+c55_wf([T|Ts], How, S) :- c55_w1(How, S, T), write(S, ' .'), nl(S), c55_wf(Ts, How, S).
+c55_w1(writeq, S, T) :- writeq(S, T).
+c55_w1(write_canonical, S, T) :- write_canonical(S, T).
+c55_w1(write_term(O), S, T) :- write_term(S, T, O).
+c55_rfile(File, Ts, Rs) :- open(File, read, S), c55_rf(Ts, S, Rs), close(S).
+c55_rf([], _, []).
+c55_rf([T|Ts], S, [R|Rs]) :-
+    catch(( read_term(S, T2, []) -> true ; T2 = '$read_failed' ), _, T2 = '$syntax_error'),
+    ( c55_variant(T, T2) -> R = ok ; R = bad ), c55_rf(Ts, S, Rs).
 """
 
+CURRENT_OPS = {}
+_PLAIN_ATOM = None
 
-def parse_texts(ctx, texts, tag, consult=None, setup=None):
+
+def pl_atom(s):
+    return terms.quote_atom(s)
+
+
+def pl_text(t, arg=False):
+    """Prolog text the implementation reads as exactly this term: functional notation, every operator atom bracketed.
+    Extra leaf kind ("str", text): a double-quoted string literal (the partial-string representation of a character list)."""
+    k = t[0]
+    if k == "var":
+        return "_G%d" % t[1] if isinstance(t[1], int) else t[1]
+    if k == "int":
+        return str(t[1]) if t[1] >= 0 else "(%d)" % t[1]
+    if k == "flt":
+        x = terms.flt_text(t[1])
+        return "(%s)" % x if x.startswith("-") else x
+    if k == "str":
+        out = ['"']
+        for ch in t[1]:
+            o = ord(ch)
+            if ch == '"': out.append('\\"')
+            elif ch == "\\": out.append("\\\\")
+            elif o < 32 or o == 127 or (o > 127 and not ch.isprintable()): out.append("\\x%x\\" % o)
+            else: out.append(ch)
+        return "".join(out) + '"'
+    if k == "atom":
+        q = pl_atom(t[1])
+        plain = t[1].isascii() and t[1].isalnum() and t[1][:1].islower() and t[1] not in CURRENT_OPS
+        return q if (plain or t[1] in ("[]", "{}")) else "(%s)" % q
+    if k == "cmp":
+        if t[1] == "." and len(t[2]) == 2:
+            items, tail = terms.list_view(t)
+            body = ",".join(pl_text(x) for x in items)
+            return "[%s]" % body if tail == terms.NIL else "[%s|%s]" % (body, pl_text(tail))
+        return "%s(%s)" % (pl_atom(t[1]), ",".join(pl_text(x) for x in t[2]))
+    raise ValueError(t)
+
+
+def tsize(t):
+    return 1 + sum(tsize(x) for x in t[2]) if t[0] == "cmp" else 1
+
+
+def tvars(t, acc=None):
+    acc = [] if acc is None else acc
+    if t[0] == "var":
+        if t[1] not in acc: acc.append(t[1])
+    elif t[0] == "cmp":
+        for x in t[2]: tvars(x, acc)
+    return acc
+
+
+def from_json_str(j):
+    """like terms.from_json but keeps strings as ("str", text) leaves"""
+    if "s" in j: return ("str", j["s"]) if j["s"] else terms.NIL
+    if "l" in j: return terms.mklist([from_json_str(x) for x in j["l"]])
+    if "c" in j: return ("cmp", j["c"][0], [from_json_str(x) for x in j["c"][1:]])
+    return terms.from_json(j)
+
+
+def parse_texts(ctx, texts, tag, consult=None):
     """Prolog texts (operator notation) -> Python terms, as read by the implementation (None where it rejects the text)."""
-    qs = ([setup] if setup else []) + ["T = (%s)." % t for t in texts]
-    off = 1 if setup else 0
+    qs = ["T = (%s)." % t for t in texts]
     rec = core.vrun_query(ctx.prop, [{"id": "p", "consult": consult or RT_PROG, "queries": qs, "timeout_ms": 30000, "fresh": True}], nproc=1, tag=tag).get("p")
-    return [first_binding(rec, i + off, "T") for i in range(len(texts))]
+    out = []
+    for i in range(len(texts)):
+        t = None
+        if rec and "results" in rec and i < len(rec["results"]):
+            for a in rec["results"][i]:
+                if isinstance(a, dict) and "b" in a and "T" in a["b"]:
+                    t = from_json_str(a["b"]["T"])
+        out.append(t)
+    return out
 
 
-def rt_test(ctx, tlist, opts, tag, consult=None, setup=None, fresh=False):
-    """write each term with `opts`, read the text back, compare (variant).  Returns a list: None (ok) | (written, read_back) | ('?', problem)."""
+def _names(ts):
+    vs = sorted({v for t in ts for v in tvars(t) if isinstance(v, int)})
+    return "[" + ",".join("'_G%d'=_G%d" % (v, v) for v in vs) + "]"
+
+
+def _bad(r):
+    if r == ("atom", "ok"):
+        return None
+    if r[0] == "cmp" and r[1] == "bad":
+        return (text(codes_of(r[2][0]) or []), text(codes_of(r[2][1]) or []))
+    return ("?", str(r))
+
+
+def rt_test(ctx, cases, opts, tag, groups, mode="plain"):
+    """cases: list of (term, group index); groups: list of consult texts.  Each term is written with `opts`, the text read back and
+    compared (variant).  Returns a list: None (ok) | (written, read_back) | ('?', problem)."""
     B, PER_JOB = 40, 400
-    jobs = []
-    for j in range(0, len(tlist), PER_JOB):
-        chunk = tlist[j:j + PER_JOB]
-        qs = ([setup] if setup else []) + ["c55_rts([%s], %s, Rs)." % (",".join(terms.arg_text(t) for t in chunk[i:i + B]), opts)
-                                           for i in range(0, len(chunk), B)]
-        jobs.append({"id": "%s%d" % (tag, j), "consult": consult or RT_PROG, "queries": qs, "timeout_ms": 60000, "fresh": fresh or j == 0})
+    by_group = {}
+    for i, (t, g) in enumerate(cases):
+        by_group.setdefault(g, []).append(i)
+    jobs, layout = [], {}
+    for g, idxs in by_group.items():
+        for j in range(0, len(idxs), PER_JOB):
+            chunk = idxs[j:j + PER_JOB]
+            qs, lay = [], []
+            for i in range(0, len(chunk), B):
+                sub = chunk[i:i + B]
+                ts = [cases[x][0] for x in sub]
+                qs.append("c55_rts([%s], %s, %s, %s, Rs)." % (",".join(pl_text(t) for t in ts), opts, _names(ts), mode))
+                lay.append(sub)
+            jid = "%s_%d_%d" % (tag, g, j)
+            jobs.append({"id": jid, "consult": groups[g], "queries": qs, "timeout_ms": 60000, "fresh": ":- op(" in groups[g] or len(groups) > 1})
+            layout[jid] = lay
     out = core.vrun_query(ctx.prop, jobs, tag=tag)
-    off = 1 if setup else 0
-    result = [None] * len(tlist)
+    result = [None] * len(cases)
     redo = []
-    for j in range(0, len(tlist), PER_JOB):
-        chunk = tlist[j:j + PER_JOB]
-        rec = out.get("%s%d" % (tag, j))
-        for qi, i in enumerate(range(0, len(chunk), B)):
-            sub = chunk[i:i + B]
-            rs = first_binding(rec, qi + off, "Rs")
+    for jid, lay in layout.items():
+        rec = out.get(jid)
+        for qi, sub in enumerate(lay):
+            rs = first_binding(rec, qi, "Rs")
             items = terms.list_view(rs)[0] if rs is not None else None
             if items is None or len(items) != len(sub):
-                redo += list(range(j + i, j + i + len(sub)))
+                redo += sub
                 continue
-            for k, r in enumerate(items):
-                if r != ("atom", "ok"):
-                    result[j + i + k] = (text(codes_of(r[2][0]) or []), text(codes_of(r[2][1]) or [])) if r[0] == "cmp" and r[1] == "bad" else ("?", str(r))
+            for x, r in zip(sub, items):
+                result[x] = _bad(r)
     if redo:
-        jobs = [{"id": "%sx%d" % (tag, i), "consult": consult or RT_PROG,
-                 "queries": ([setup] if setup else []) + ["c55_rt(%s, %s, R)." % (terms.arg_text(tlist[i]), opts)], "timeout_ms": 20000, "fresh": True} for i in redo]
+        jobs = [{"id": "%sx%d" % (tag, i), "consult": groups[cases[i][1]],
+                 "queries": ["c55_rt(%s, %s, %s, %s, R)." % (pl_text(cases[i][0]), opts, _names([cases[i][0]]), mode)],
+                 "timeout_ms": 20000, "fresh": True} for i in redo]
         out2 = core.vrun_query(ctx.prop, jobs, tag=tag + "x")
         for i in redo:
             rec = out2.get("%sx%d" % (tag, i))
-            r = first_binding(rec, off, "R")
-            if r is None:
-                result[i] = ("?", "no answer: " + rec_problem(rec, off))
-            elif r != ("atom", "ok"):
-                result[i] = (text(codes_of(r[2][0]) or []), text(codes_of(r[2][1]) or [])) if r[0] == "cmp" and r[1] == "bad" else ("?", str(r))
+            r = first_binding(rec, 0, "R")
+            result[i] = ("?", "no answer: " + rec_problem(rec, 0)) if r is None else _bad(r)
     return result
 
 
@@ -610,14 +732,6 @@ def proper_subterms(t):
         for x in t[2]:
             yield x
             yield from proper_subterms(x)
-
-
-def leaf_paths(t, path=()):
-    if t[0] == "cmp":
-        for i, x in enumerate(t[2]):
-            yield from leaf_paths(x, path + (i,))
-    else:
-        yield path
 
 
 def replace_at(t, path, new):
@@ -653,6 +767,7 @@ def abstract_shape(t, ops, depth=0):
         return "f" if not (t[1] >> 63) else "negf"
     if k == "var": return "V"
     if k == "rat": return "r"
+    if k == "str": return "s"
     if depth > 4: return "..."
     n, ar = t[1], len(t[2])
     cls = None
@@ -668,36 +783,32 @@ def abstract_shape(t, ops, depth=0):
     return "%s(%s)" % (cls, ",".join(abstract_shape(x, ops, depth + 1) for x in t[2]))
 
 
-def classify_failures(ctx, res, failing, opts, label, ops, tag, consult=None, setup=None, key_prefix="roundtrip", max_report=30):
-    """failing: list of (term, (written, back)).  Shrinks to minimal failing subterms, generalises leaves to `a`, derives keys, reports."""
+def classify_failures(ctx, res, failing, opts, label, tag, groups, group_ops, mode="plain", key_prefix="roundtrip", max_report=30):
+    """failing: list of (term, group, (written, back)).  Shrinks to minimal failing subterms, generalises while the failure persists
+    (subterms -> a, operator atoms -> *, the special functors - + , -> a generic operator), derives keys, reports."""
     failing = failing[:80]
     if not failing:
         return
-    # 1. shrink: all proper compound subterms
     cands, owner = [], []
-    for fi, (t, _) in enumerate(failing):
+    for fi, (t, g, _) in enumerate(failing):
         seen = set()
         for s in proper_subterms(t):
             if s[0] == "cmp":
-                k = terms.to_prolog(s)
+                k = pl_text(s)
                 if k not in seen:
-                    seen.add(k); cands.append(s); owner.append(fi)
+                    seen.add(k); cands.append((s, g)); owner.append(fi)
     minimal = {}
+    best = {}
     if cands:
-        r = rt_test(ctx, cands, opts, tag + "s", consult, setup)
-        best = {}
-        for s, fi, x in zip(cands, owner, r):
+        r = rt_test(ctx, cands, opts, tag + "s", groups, mode)
+        for (s, g), fi, x in zip(cands, owner, r):
             if x is not None and x[0] != "?":
-                if fi not in best or terms.size(s) < terms.size(best[fi][0]):
-                    best[fi] = (s, x)
-        for fi, (t, x) in enumerate(failing):
-            m = best.get(fi, (t, x))
-            minimal.setdefault(terms.to_prolog(m[0]), m)
-    else:
-        for t, x in failing:
-            minimal.setdefault(terms.to_prolog(t), (t, x))
+                if fi not in best or tsize(s) < tsize(best[fi][0]):
+                    best[fi] = (s, g, x)
+    for fi, f in enumerate(failing):
+        m = best.get(fi, f)
+        minimal.setdefault((pl_text(m[0]), m[1]), m)
     cur = list(minimal.values())[:60]
-    # 2. generalise while the failure persists: subterms -> a, operator atoms -> *, the special functors - + , -> a generic operator
     A, STAR = ("atom", "a"), ("atom", "*")
 
     def all_paths(t, path=()):
@@ -707,7 +818,7 @@ def classify_failures(ctx, res, failing, opts, label, ops, tag, consult=None, se
             for i, x in enumerate(t[2]):
                 yield from all_paths(x, path + (i,))
 
-    def mutations(t):
+    def mutations(t, ops):
         out = []
         for pth in all_paths(t):
             sub = get_at(t, pth)
@@ -722,59 +833,65 @@ def classify_failures(ctx, res, failing, opts, label, ops, tag, consult=None, se
             sub = get_at(t, pth)
             if sub[0] == "cmp" and sub[1] in ("-", "+", ","):
                 if len(sub[2]) == 2:
-                    out.append(replace_at(t, pth, ("cmp", "*", sub[2])) if pth else ("cmp", "*", sub[2]))
+                    out.append(replace_at(t, pth, ("cmp", "*", sub[2])))
                 elif len(sub[2]) == 1:
-                    out.append(replace_at(t, pth, ("cmp", "\\", sub[2])) if pth else ("cmp", "\\", sub[2]))
+                    out.append(replace_at(t, pth, ("cmp", "\\", sub[2])))
         return out
 
     for _round in range(14):
         trial, idx = [], []
-        for i, (t, x) in enumerate(cur):
-            for m in mutations(t)[:24]:
-                trial.append(m); idx.append(i)
+        for i, (t, g, x) in enumerate(cur):
+            for m in mutations(t, group_ops[g])[:24]:
+                trial.append((m, g)); idx.append(i)
         if not trial:
             break
-        r = rt_test(ctx, trial, opts, tag + "g", consult, setup)
+        r = rt_test(ctx, trial, opts, tag + "g", groups, mode)
         changed = set()
-        for t2, i, x in zip(trial, idx, r):
+        for (t2, g), i, x in zip(trial, idx, r):
             if i not in changed and x is not None and x[0] != "?":
-                cur[i] = (t2, x); changed.add(i)
+                cur[i] = (t2, g, x); changed.add(i)
         if not changed:
             break
         uniq = {}
-        for t, x in cur:
-            uniq.setdefault(terms.to_prolog(t), (t, x))
+        for c in cur:
+            uniq.setdefault((pl_text(c[0]), c[1]), c)
         cur = list(uniq.values())
     seen = set()
-    for t, x in sorted(cur, key=lambda c: terms.size(c[0])):
-        k = "%s:%s:%s" % (key_prefix, label, abstract_shape(t, ops))
+    for t, g, x in sorted(cur, key=lambda c: tsize(c[0])):
+        k = "%s:%s:%s" % (key_prefix, label, abstract_shape(t, group_ops[g]))
         if k in seen:
             continue
         seen.add(k)
         if len(seen) > max_report:
             break
+        extra = [l for l in groups[g].split("\n") if l.startswith(":- op(")]
         res["failures"].append({"key": k, "what": "the text written for a term does not read back as (a variant of) the term",
-                                "input": "T = %s, write_term_to_chars(T, %s, Cs), append(Cs, \" .\", Cs1), read_term_from_chars(Cs1, T2, [])%s"
-                                         % (terms.to_prolog(t), opts, ("   %% after: " + setup) if setup else ""),
+                                "input": "%sT = %s, write_term_to_chars(T, %s, Cs), append(Cs, \" .\", Cs1), read_term_from_chars(Cs1, T2, [])"
+                                         % (" ".join(extra) + " " if extra else "", pl_text(t), opts),
                                 "impl": {"written_text": x[0], "read_back_as": x[1]}, "spec": "T2 is a variant of T", "property_fails": True})
 
 
-def roundtrip_cases(ctx, res, tlist, opts, label, tag, ops=None, consult=None, setup=None, fresh=False):
-    r = rt_test(ctx, tlist, opts, tag, consult, setup, fresh)
+def roundtrip_cases(ctx, res, cases, opts, label, tag, groups, group_ops, mode="plain"):
+    global CURRENT_OPS
+    allops = {}
+    for o in group_ops:
+        allops.update(o)
+    CURRENT_OPS = allops
+    r = rt_test(ctx, cases, opts, tag, groups, mode)
     failing = []
     n = 0
-    for t, x in zip(tlist, r):
+    for (t, g), x in zip(cases, r):
         if x is not None and x[0] == "?":
             res["tie_breaks"].append({"kind": "harness", "what": "round-trip query gave no result",
-                                      "detail": {"term": terms.to_prolog(t), "opts": opts, "result": x[1][:300]}})
+                                      "detail": {"term": pl_text(t), "opts": opts, "result": x[1][:300]}})
             continue
         n += 1
         if x is not None:
-            failing.append((t, x))
+            failing.append((t, g, x))
     if failing:
-        classify_failures(ctx, res, failing, opts, label, ops if ops is not None else default_ops(), tag, consult, setup)
+        classify_failures(ctx, res, failing, opts, label, tag, groups, group_ops, mode)
     res["evaluations"] += n
-    return n, len(failing)
+    return n, len(failing), r
 
 
 def op_term_pool(rng, n, prefix, infix, operands, postfix=()):
@@ -812,7 +929,7 @@ def op_term_pool(rng, n, prefix, infix, operands, postfix=()):
 def dedupe_terms(tl):
     seen, out = set(), []
     for t in tl:
-        k = terms.to_prolog(t)
+        k = pl_text(t)
         if k not in seen:
             seen.add(k); out.append(t)
     return out
@@ -824,26 +941,41 @@ OPERAND_TEXTS = ["a", "1", "-1", "1.0", "-1.0", "'A b'", "[]", "{}", "\"s\"", "f
 
 
 def run_spacing(ctx, res):
+    global CURRENT_OPS
     rng = ctx.rng
     ops = default_ops()
+    CURRENT_OPS = ops
     prefix = ["-", "+", "\\", "\\+", ":-", "?-"]
     infix = ["+", "-", "*", "=", ":", ",", "=..", "-->", "is", "mod", "**", "^", "->", ";", "|", ":-", "rdiv", "<", "//", "/"]
     fixed = [t for t in parse_texts(ctx, SPACING_FIXED, "spfixed") if t is not None]
     operands = [t for t in parse_texts(ctx, OPERAND_TEXTS, "spoperands") if t is not None]
-    ground = lambda t: not terms.term_vars(t)
+    ground = lambda t: not tvars(t)
     cases = [t for t in fixed if ground(t)] + op_term_pool(rng, ctx.scale(3000, 60000), prefix, infix, [o for o in operands if ground(o)])
-    cases = dedupe_terms(cases)
-    n, nf = roundtrip_cases(ctx, res, cases, "[quoted(true)]", "writeq", "sp", ops)
+    cases = [(t, 0) for t in dedupe_terms(cases)]
+    n, nf, _ = roundtrip_cases(ctx, res, cases, "[quoted(true)]", "writeq", "sp", [RT_PROG], [ops])
     res["nontrivial"] += n
     res["distribution"]["spacing_roundtrip"] = {"terms": n, "fixed": len(fixed), "operands": len(operands), "failing_before_shrinking": nf}
 
 
+def eval_deferred(ctx, res, gens, imports, tag="cases"):
+    """each generator yields its list of Coq booleans and is resumed with (bad indices, shard errors): one sharded coqc run for all"""
+    parts, allb = [], []
+    for g in gens:
+        b = next(g)
+        parts.append((g, len(allb), len(b)))
+        allb += b
+    chunk = max(150, -(-len(allb) // max(1, core.NPROC)))
+    bad, errs = core.coq_eval_bools(ctx.prop, imports, allb, chunk=min(chunk, 1200), tag=tag) if allb else ([], [])
+    for k, (g, off, n) in enumerate(parts):
+        try:
+            g.send(([i - off for i in bad if off <= i < off + n], errs if k == 0 else []))
+        except StopIteration:
+            pass
+
+
 def run(ctx):
     res = {"evaluations": 0, "nontrivial": 0, "failures": [], "tie_breaks": [], "samples": [], "distribution": {}}
-    run_classes(ctx, res)
-    run_atoms(ctx, res)
-    run_wchars(ctx, res)
-    run_canonical(ctx, res)
+    eval_deferred(ctx, res, [run_classes(ctx, res), run_atoms(ctx, res), run_wchars(ctx, res), run_canonical(ctx, res)], IMPORTS)
     run_spacing(ctx, res)
     return {
         "evaluations": res["evaluations"], "distinct_nontrivial": res["nontrivial"],
